@@ -290,7 +290,8 @@ structure St (V : Type) where
 
 /-- configuration that calls never write: the value of orbit object `i` after `k = (k₁, k₂)` in-place modifications by the
 user (`store i k`), the kind, the numerical set-up; `sameState a b` is `Sgp4._state(a) == Sgp4._state(b)`: the coordinates,
-date, form and frame of the two orbit values are equal (their other attributes are not looked at) -/
+date, form, frame and drag terms (`bstar`, `ndot`, `ndotdot`) of the two orbit values are equal (their other attributes —
+name, catalogue numbers, revolution / element counters — are not looked at) -/
 structure World (V : Type) where
   kind : Kind
   store : Nat → Nat × Nat → V
@@ -310,8 +311,8 @@ def bind {V : Type} (w : World V) (s : St V) (i : Nat) : St V :=
   else { s with bound := some (i, cur w s i), rebinds := s.rebinds + 1 }
 
 /-- `Sgp4.propagate`: `if self._state(self._orbit) != self._bound_to: self.orbit = self._orbit` — the satellite record is
-re-derived when the bound orbit object no longer has the STATE (`World.sameState`: coordinates, date, form, frame) the record
-was computed from (the object stays the same: not a re-binding to another object) -/
+re-derived when the bound orbit object no longer has the STATE (`World.sameState`: coordinates, date, form, frame, drag terms)
+the record was computed from (the object stays the same: not a re-binding to another object) -/
 def refresh {V : Type} (w : World V) (s : St V) : St V :=
   if w.kind = .sgp4 then
     match s.bound with
